@@ -304,8 +304,10 @@ package pipe
 //@     loop 0 invariant !closed(out) && !closed(exx) && !sawCancel
 //@     loop 0 invariant sent(out) == titer(f, seed0, len(sent(out))) && seed == fpow(f, seed0, len(sent(out)))
 //@     loop 0 invariant f.failfast() ==> sent(exx) == [] && slots(exx) >= 1
+//@     loop 0 invariant errors_are_the_failures: sent(exx) == terrs(f, sent(out))
 //@     ensures closes_outputs: closed(out) && closed(exx)
 //@     ensures [C11] successive_iterates: sent(out) == titer(f, seed0, len(sent(out)))
+//@     ensures [C07 C11] errors_are_the_failures: !sawCancel ==> sent(exx) == terrs(f, sent(out))
 //@     ensures stops_only_on_cancel_or_first_failure: sawCancel || (f.failfast() && sent(exx) != [])
 
 // ---- Join: every copier forwards its input in order; out closes after all copiers ----
@@ -420,7 +422,7 @@ package pipe
 //@     opt takes=eg
 //@     opt closes=in
 //@     opt inputs=in
-//@     opt baresend=delivery
+//@     opt baresend=flush
 //@     opt lemmas=tol_snocl
 //@     requires qinv(mq) && qview(mq) == [] && eg != in && in != nil
 //@     loop 0 invariant qinv(mq) && !closed(eg) && !closed(in) && !sawCancel && !drained(in) && tol(sent(eg), qview(mq)) == rcvd(in)
